@@ -616,6 +616,8 @@ def run_check(prop, tier, seed):
     for stage in spec['stages']:
         if tier not in stage.get('tiers', ('quick', 'thorough')):
             continue
+        if os.environ.get('VERIF_ONLY_STAGE') and stage['name'] not in os.environ['VERIF_ONLY_STAGE'].split(','):
+            continue    # diagnostics / sensitivity runs only (tools/sens.sh); never set by the registered commands
         try:
             exe = ensure_harness(stage['harness'])
         except BuildError as e:
